@@ -301,8 +301,8 @@ def run(tier):
     lean_ok = lean_gate(chk, THEOREMS)
     quick = tier == "quick"
     r = rng(f"{PROP}-{tier}")
-    n_rat = 3000 if quick else 120000
-    n_quad = 200 if quick else 5000
+    n_rat = 3000 if quick else 80000
+    n_quad = 200 if quick else 4000
     # ---------------- rational tier
     cases, seen = [], set()
     for i, bs in enumerate(CORPUS_RATIONAL):
